@@ -96,8 +96,11 @@ def check_point(pt):
                     v["sig"] = classify_item(cfg, sec, mn, before, after, cur)
                     vs.append(v)
                 return vs, True, "drift", {}, evals
-            return [V("not-a-fixed-point", "cycle %d equals cycle %d" % (cycle, cycle - 1),
-                      canon.diff_tags(prev_tag, cur), written)], True, "drift", {}, evals
+            v = V("not-a-fixed-point", "cycle %d equals cycle %d" % (cycle, cycle - 1),
+                  canon.diff_tags(prev_tag, cur), written)
+            if cfg.get("wrap") is not None and only_one_more_wrap_item(prev_tag, cur):
+                v["sig"] = "duplicated-wrap-item-grows"
+            return [v], True, "drift", {}, evals
         prev_tag = cur
         if cycle == CYCLES:
             break
@@ -136,6 +139,23 @@ def item_diffs(tag_a, tag_b):
     if tag_a.get("curves") != tag_b.get("curves"):
         out.append(("<data>", "", None, None))
     return out
+
+
+def only_one_more_wrap_item(tag_a, tag_b):
+    """Exactly the recorded shape of RC37: ~Version already holds two or more WRAP items and the next cycle has the same
+    items plus ONE more WRAP item at the end; every other section and the data are equal."""
+    sa, sb = dict(tag_a["sections"]), dict(tag_b["sections"])
+    if list(sa) != list(sb) or tag_a.get("curves") != tag_b.get("curves"):
+        return False
+    for name in sa:
+        if name != "Version" and sa[name] != sb[name]:
+            return False
+    a, b = sa.get("Version"), sb.get("Version")
+    if not a or not b or a[0] != b[0] or a[0] == "text":
+        return False
+    ia, ib = list(a[1]), list(b[1])
+    return (len(ib) == len(ia) + 1 and ib[:-1] == ia and str(ib[-1][0]).upper() == "WRAP"
+            and sum(1 for it in ia if str(it[0]).upper() == "WRAP") >= 2)
 
 
 def _index_of(tag):
